@@ -451,6 +451,15 @@ func (x *Exec) block(fr *Frame, st *State, b *ssa.BasicBlock, pred *ssa.BasicBlo
 	x.instrs(fr, st, b, 0)
 }
 
+func (x *Exec) pruneDepth() int {
+	if x.con != nil && x.con.Opts["prune-depth"] != "" {
+		n := 0
+		fmt.Sscan(x.con.Opts["prune-depth"], &n)
+		return n
+	}
+	return 7
+}
+
 func (x *Exec) endPath() {
 	x.paths++
 	if x.paths > maxPaths {
@@ -479,6 +488,17 @@ func (x *Exec) instrs(fr *Frame, st *State, b *ssa.BasicBlock, from int) {
 			if cond.S == "false" {
 				x.block(fr, st, b.Succs[1], b)
 				return
+			}
+			if len(st.trace) >= x.pruneDepth() {
+				// deep paths: drop infeasible branches (one short solver call each) to keep path enumeration tractable
+				if x.prove(st, cond.S) {
+					x.block(fr, st, b.Succs[0], b)
+					return
+				}
+				if x.prove(st, sNot(cond.S)) {
+					x.block(fr, st, b.Succs[1], b)
+					return
+				}
 			}
 			s2 := st.clone()
 			st.assume(cond.S)
